@@ -255,17 +255,20 @@ Theorem c07_feat_set_ops_distinct :
 Proof. vm_compute. reflexivity. Qed.
 Print Assumptions c07_feat_set_ops_distinct.
 
-(* full statement, FALSE on the unchanged tree (bigquery: except_all() / intersect_all() default to true, the file's own matrix says no):
-     all_ops_ok (fun df => implies (except_all (snd df)) (supported (fst df) (KSetOp Except QAll))
-                        && implies (intersect_all (snd df)) (supported (fst df) (KSetOp Intersect QAll))) = true *)
+(* EXCEPT ALL / INTERSECT ALL: the statement in both states of the source.  [fix_n5 head_fixes] is regenerated: "BigQueryDialect
+   overrides except_all() with false" (fixes/C07-N5-bigquery-except-all.diff).  Without the repair the full statement is
+   false (bigquery inherits except_all() = true, the file's own matrix says no); with it, it holds for all twelve rows. *)
 Definition except_all_ok (df : list N * feat) : bool :=
   implies (except_all (snd df)) (supported (fst df) (KSetOp Except QAll))
   && implies (intersect_all (snd df)) (supported (fst df) (KSetOp Intersect QAll)).
-Theorem c07_witness_bigquery : existsb (fun df => negb (except_all_ok df)) feats = true.
+Theorem c07_feat_except_all_state : all_ops_ok except_all_ok = fix_n5 GenDialectFeat.head_fixes.
 Proof. vm_compute. reflexivity. Qed.
-Print Assumptions c07_witness_bigquery.
-Theorem c07_feat_except_all_refuted : exists df, In df feats /\ except_all_ok df = false.
-Proof. destruct (proj1 (existsb_exists _ _) c07_witness_bigquery) as (df & Hin & H). exists df. split; [exact Hin|]. now destruct (except_all_ok df). Qed.
+Print Assumptions c07_feat_except_all_state.
+Theorem c07_feat_except_all : fix_n5 GenDialectFeat.head_fixes = true -> forall df, In df feats -> except_all_ok df = true.
+Proof. exact (proj1 (forallb_state _ _ _ c07_feat_except_all_state)). Qed.
+Print Assumptions c07_feat_except_all.
+Theorem c07_feat_except_all_refuted : fix_n5 GenDialectFeat.head_fixes = false -> exists df, In df feats /\ except_all_ok df = false.
+Proof. exact (proj2 (forallb_state _ _ _ c07_feat_except_all_state)). Qed.
 Print Assumptions c07_feat_except_all_refuted.
 Theorem c07_feat_except_all_partial : all_ops_ok (fun df => is_ (fst df) [d_bigquery] || except_all_ok df) = true.
 Proof. vm_compute. reflexivity. Qed.
@@ -277,18 +280,57 @@ Theorem c07_feat_column_exclude :
 Proof. vm_compute. reflexivity. Qed.
 Print Assumptions c07_feat_column_exclude.
 
-(* full statement, FALSE on the unchanged tree (redshift claims zero-column SELECT):
-     all_ops_ok (fun df => implies (supports_zero_columns (snd df)) (supported (fst df) KZeroCols)) = true *)
+(* zero-column SELECT, both states ([fix_n8]: RedshiftDialect no longer overrides supports_zero_columns() with true; the repair is
+   blocked by the pinned test queries::compileall::constants_only) *)
 Definition zero_cols_ok (df : list N * feat) : bool := implies (supports_zero_columns (snd df)) (supported (fst df) KZeroCols).
-Theorem c07_witness_redshift : existsb (fun df => negb (zero_cols_ok df)) feats = true.
+Theorem c07_feat_zero_columns_state : all_ops_ok zero_cols_ok = fix_n8 GenDialectFeat.head_fixes.
 Proof. vm_compute. reflexivity. Qed.
-Print Assumptions c07_witness_redshift.
-Theorem c07_feat_zero_columns_refuted : exists df, In df feats /\ zero_cols_ok df = false.
-Proof. destruct (proj1 (existsb_exists _ _) c07_witness_redshift) as (df & Hin & H). exists df. split; [exact Hin|]. now destruct (zero_cols_ok df). Qed.
+Print Assumptions c07_feat_zero_columns_state.
+Theorem c07_feat_zero_columns : fix_n8 GenDialectFeat.head_fixes = true -> forall df, In df feats -> zero_cols_ok df = true.
+Proof. exact (proj1 (forallb_state _ _ _ c07_feat_zero_columns_state)). Qed.
+Print Assumptions c07_feat_zero_columns.
+Theorem c07_feat_zero_columns_refuted : fix_n8 GenDialectFeat.head_fixes = false -> exists df, In df feats /\ zero_cols_ok df = false.
+Proof. exact (proj2 (forallb_state _ _ _ c07_feat_zero_columns_state)). Qed.
 Print Assumptions c07_feat_zero_columns_refuted.
 Theorem c07_feat_zero_columns_partial : all_ops_ok (fun df => is_ (fst df) [d_redshift] || zero_cols_ok df) = true.
 Proof. vm_compute. reflexivity. Qed.
 Print Assumptions c07_feat_zero_columns_partial.
+
+(* WITH RECURSIVE (N6) and INTERVAL literals (N3): the dialect flags the repairs introduce (absent method = emitted for every
+   dialect), both states *)
+Definition recursive_ok (df : list N * feat) : bool := implies (recursive_keyword (snd df)) (supported (fst df) KRecursive).
+Theorem c07_feat_recursive_state : all_ops_ok recursive_ok = fix_n6 GenDialectFeat.head_fixes.
+Proof. vm_compute. reflexivity. Qed.
+Print Assumptions c07_feat_recursive_state.
+Theorem c07_feat_recursive : fix_n6 GenDialectFeat.head_fixes = true -> forall df, In df feats -> recursive_ok df = true.
+Proof. exact (proj1 (forallb_state _ _ _ c07_feat_recursive_state)). Qed.
+Print Assumptions c07_feat_recursive.
+Theorem c07_feat_recursive_refuted : fix_n6 GenDialectFeat.head_fixes = false -> exists df, In df feats /\ recursive_ok df = false.
+Proof. exact (proj2 (forallb_state _ _ _ c07_feat_recursive_state)). Qed.
+Print Assumptions c07_feat_recursive_refuted.
+Theorem c07_feat_recursive_partial : all_ops_ok (fun df => is_ (fst df) [d_mssql] || recursive_ok df) = true.
+Proof. vm_compute. reflexivity. Qed.
+Print Assumptions c07_feat_recursive_partial.
+
+Definition interval_ok (df : list N * feat) : bool := implies (interval_literal (snd df)) (supported (fst df) KInterval).
+Theorem c07_feat_interval_state : all_ops_ok interval_ok = fix_n3 GenDialectFeat.head_fixes.
+Proof. vm_compute. reflexivity. Qed.
+Print Assumptions c07_feat_interval_state.
+Theorem c07_feat_interval : fix_n3 GenDialectFeat.head_fixes = true -> forall df, In df feats -> interval_ok df = true.
+Proof. exact (proj1 (forallb_state _ _ _ c07_feat_interval_state)). Qed.
+Print Assumptions c07_feat_interval.
+Theorem c07_feat_interval_refuted : fix_n3 GenDialectFeat.head_fixes = false -> exists df, In df feats /\ interval_ok df = false.
+Proof. exact (proj2 (forallb_state _ _ _ c07_feat_interval_state)). Qed.
+Print Assumptions c07_feat_interval_refuted.
+Theorem c07_feat_interval_partial : all_ops_ok (fun df => is_ (fst df) [d_sqlite; d_mssql] || interval_ok df) = true.
+Proof. vm_compute. reflexivity. Qed.
+Print Assumptions c07_feat_interval_partial.
+
+(* the tree under test: none of the five proposed repairs is in it.  When one lands, this obligation stops checking (so does a
+   later regression), the finding is set to fixed and the pin is flipped; the statements above need no edit. *)
+Theorem c07_head_fixes : GenDialectFeat.head_fixes = mkFixes false false false false false.
+Proof. vm_compute. reflexivity. Qed.
+Print Assumptions c07_head_fixes.
 
 Theorem c07_feat_paren_operand : all_ops_ok (fun df => implies (prefers_paren (snd df)) (supported (fst df) KParenOperand)) = true.
 Proof. vm_compute. reflexivity. Qed.
